@@ -7,6 +7,7 @@ import (
 	"time"
 
 	"github.com/massnetorg/mass-core/wire"
+	"massnet.org/mass-wallet/masswallet/keystore"
 	"massnet.org/mass-wallet/masswallet/txmgr"
 )
 
@@ -76,3 +77,6 @@ func (h *NtfnsHandler) VerifMempoolSize() int {
 func (w *WalletManager) VerifUnminedTx(hash *wire.Hash) (*wire.MsgTx, error) {
 	return w.existsUnminedTx(hash)
 }
+
+// VerifKeystore returns the wallet's keystore manager.
+func (w *WalletManager) VerifKeystore() *keystore.KeystoreManager { return w.ksmgr }
